@@ -265,12 +265,8 @@ func (t *FnTrans) unopInstr(x *ssa.UnOp, st *HeapState, reach string) {
 			t.setVal(x, t.havocVal(x.Type(), "load"))
 			return
 		}
-		if p.K == VScalar {
-			if _, isGlobal := x.X.(*ssa.Global); !isGlobal {
-				if _, isAlloc := x.X.(*ssa.Alloc); !isAlloc {
-					t.nilCheck(x.Pos(), reach, p.S)
-				}
-			}
+		if p.K == VScalar && !interiorOrLocal(x.X) {
+			t.nilCheck(x.Pos(), reach, p.S)
 		}
 		t.setVal(x, t.load(st, l, reach))
 	case token.ARROW:
@@ -320,12 +316,8 @@ func (t *FnTrans) storeInstr(x *ssa.Store, st *HeapState, reach string) {
 		t.replaceState(st, t.havocAll(st))
 		return
 	}
-	if p.K == VScalar {
-		if _, isGlobal := x.Addr.(*ssa.Global); !isGlobal {
-			if _, isAlloc := x.Addr.(*ssa.Alloc); !isAlloc {
-				t.nilCheck(x.Pos(), reach, p.S)
-			}
-		}
+	if p.K == VScalar && !interiorOrLocal(x.Addr) {
+		t.nilCheck(x.Pos(), reach, p.S)
 	}
 	t.store(st, l, t.val(x.Val))
 }
@@ -336,7 +328,7 @@ func (t *FnTrans) fieldAddr(x *ssa.FieldAddr, reach string) {
 		t.setVal(x, unknown(x.Type()))
 		return
 	}
-	if _, isAlloc := x.X.(*ssa.Alloc); !isAlloc {
+	if !interiorOrLocal(x.X) {
 		t.nilCheck(x.Pos(), reach, p.S)
 	}
 	st := x.X.Type().Underlying().(*types.Pointer).Elem()
@@ -346,6 +338,16 @@ func (t *FnTrans) fieldAddr(x *ssa.FieldAddr, reach string) {
 		return
 	}
 	t.vals[x] = Val{K: VAddr, T: x.Type(), L: l}
+}
+
+// interiorOrLocal: pointers that cannot be nil (address of a field/element of
+// a checked object, or a local allocation).
+func interiorOrLocal(v ssa.Value) bool {
+	switch v.(type) {
+	case *ssa.Alloc, *ssa.FieldAddr, *ssa.IndexAddr, *ssa.Global:
+		return true
+	}
+	return false
 }
 
 func (t *FnTrans) boundsCond(idx, n string) string {
@@ -376,7 +378,7 @@ func (t *FnTrans) indexAddr(x *ssa.IndexAddr, st *HeapState, reach string) {
 			t.setVal(x, unknown(x.Type()))
 			return
 		}
-		if _, isAlloc := x.X.(*ssa.Alloc); !isAlloc {
+		if !interiorOrLocal(x.X) {
 			t.nilCheck(x.Pos(), reach, base.S)
 		}
 		baseRef, n = base.S, t.mode.intLit64(at.Len(), 64)
@@ -460,7 +462,7 @@ func (t *FnTrans) sliceInstr(x *ssa.Slice, st *HeapState, reach string) {
 		lo := get(x.Low, z)
 		hi := get(x.High, n)
 		mx := get(x.Max, n)
-		if _, isAlloc := x.X.(*ssa.Alloc); !isAlloc {
+		if !interiorOrLocal(x.X) {
 			t.nilCheck(x.Pos(), reach, base.S)
 		}
 		t.safety("slice", x.Pos(), reach, and(t.cmpIdx("<=", z, lo), t.cmpIdx("<=", lo, hi), t.cmpIdx("<=", hi, mx), t.cmpIdx("<=", mx, n)))
